@@ -90,6 +90,18 @@ func clientRx(v *View, name string) []Ev {
 	return out
 }
 
+// clientDlv lists datagrams that reached a real client's socket (whether or not it has read them).
+func clientDlv(v *View, name string) []Ev {
+	var out []Ev
+	for i, rec := range v.R.Hist {
+		if rec.Ch == "cl.sn:"+name+"<" && rec.Kind == "dlv" {
+			p, err := refsn.Decode(rec.B)
+			out = append(out, Ev{Idx: i, T: rec.T, Kind: EvPeerRx, Raw: rec.B, SN: p, SNErr: err})
+		}
+	}
+	return out
+}
+
 // handlerCalls lists subscription-handler invocations of a client: (filter, topic, payload, qos).
 type handlerCall struct {
 	idx     int
